@@ -18,6 +18,11 @@ pub struct Ledger {
     /// panic injection: when `Some(n)`, the n-th (0-based) call into user code panics
     pub fuse: Option<u64>,
     pub user_calls: u64,
+    /// calls of each kind completed since `set_fuse` (0 build_hasher, 1 hash, 2 eq, 3 clone, 4 drop key,
+    /// 5 drop value, 6 callback)
+    pub by_kind: [u64; 7],
+    /// kind of the call the fuse fired in, with the per-kind counts at that moment
+    pub fired: Option<(u8, [u64; 7])>,
 }
 
 thread_local! {
@@ -83,7 +88,7 @@ fn released(serial: u64, is_key: bool) {
     });
 }
 /// one call into user code (Hash, Eq, Clone, Drop, callback, build_hasher): panics when the fuse says so
-pub fn user_call() {
+pub fn user_call(kind: u8) {
     let fire = LEDGER
         .try_with(|l| {
             if let Ok(mut l) = l.try_borrow_mut() {
@@ -91,8 +96,10 @@ pub fn user_call() {
                 l.user_calls += 1;
                 if l.fuse == Some(n) {
                     l.fuse = None;
+                    l.fired = Some((kind, l.by_kind));
                     return true;
                 }
+                l.by_kind[kind as usize] += 1;
             }
             false
         })
@@ -106,7 +113,20 @@ pub fn set_fuse(n: Option<u64>) {
         let mut l = l.borrow_mut();
         l.fuse = n;
         l.user_calls = 0;
+        l.by_kind = [0; 7];
+        l.fired = None;
     })
+}
+/// where the fuse fired since the last `set_fuse`, if it did
+pub fn fired() -> Option<(u8, [u64; 7])> {
+    LEDGER.with(|l| l.borrow().fired)
+}
+/// whether Drop of keys and values counts as a call into user code (only the fault slice turns it on)
+pub static DROP_IS_USER_CALL: std::sync::atomic::AtomicBool = std::sync::atomic::AtomicBool::new(false);
+fn drop_call(kind: u8) {
+    if DROP_IS_USER_CALL.load(std::sync::atomic::Ordering::Relaxed) && !std::thread::panicking() {
+        user_call(kind);
+    }
 }
 pub fn user_calls() -> u64 {
     LEDGER.with(|l| l.borrow().user_calls)
@@ -124,25 +144,27 @@ impl TKey {
 }
 impl Clone for TKey {
     fn clone(&self) -> Self {
-        user_call();
+        user_call(3);
         TKey::new(self.id)
     }
 }
 impl Drop for TKey {
     fn drop(&mut self) {
+        // released first: a second drop of the same object is then seen as one even if this one panics
         released(self.serial, true);
+        drop_call(4);
     }
 }
 impl PartialEq for TKey {
     fn eq(&self, o: &Self) -> bool {
-        user_call();
+        user_call(2);
         self.id == o.id
     }
 }
 impl Eq for TKey {}
 impl Hash for TKey {
     fn hash<H: Hasher>(&self, h: &mut H) {
-        user_call();
+        user_call(1);
         self.id.hash(h)
     }
 }
@@ -151,14 +173,14 @@ impl Hash for TKey {
 pub struct KQ(pub u64);
 impl PartialEq for KQ {
     fn eq(&self, o: &Self) -> bool {
-        user_call();
+        user_call(2);
         self.0 == o.0
     }
 }
 impl Eq for KQ {}
 impl Hash for KQ {
     fn hash<H: Hasher>(&self, h: &mut H) {
-        user_call();
+        user_call(1);
         self.0.hash(h)
     }
 }
@@ -181,13 +203,14 @@ impl TVal {
 }
 impl Clone for TVal {
     fn clone(&self) -> Self {
-        user_call();
+        user_call(3);
         TVal::new(self.v)
     }
 }
 impl Drop for TVal {
     fn drop(&mut self) {
         released(self.serial, false);
+        drop_call(5);
     }
 }
 
@@ -206,7 +229,7 @@ impl caches::OnEvictCallback for RecCb {
             let _p = Pause::new();
             LEDGER.with(|l| l.borrow_mut().cb.push((k, v)));
         }
-        user_call();
+        user_call(6);
     }
 }
 
@@ -237,7 +260,7 @@ pub enum VH {
 impl BuildHasher for VHasher {
     type Hasher = VH;
     fn build_hasher(&self) -> VH {
-        user_call();
+        user_call(0);
         match self {
             VHasher::Sip(s) => VH::Sip(s.build_hasher()),
             VHasher::Identity => VH::Identity(0),
